@@ -569,6 +569,148 @@ def evaluate(ctx: Ctx, out: Outcome, views: list[dict], results: list[dict]) -> 
             "canon_mutants_rejected_by_both": sum(1 for c in canon if not c["spec_valid"] and c["gql"])}
 
 
+# --------------------------------------------------------------------------------------------------------------------
+# histories on ONE schema object (spec/GraphQLHistory.tla): configure / register scalar / draw, judged per step
+# --------------------------------------------------------------------------------------------------------------------
+def _reg_strategy(kind: str):
+    from hypothesis import strategies as st
+    from schemathesis.specs.graphql import nodes
+
+    if kind == "int":
+        return st.integers(min_value=-9, max_value=9).map(nodes.Int)
+    return st.sampled_from(["r1", "r2", ""]).map(nodes.String)
+
+
+def _gen_config(cfg: dict):
+    from schemathesis.generation import GenerationConfig
+
+    return GenerationConfig(graphql_allow_null=cfg["allowNull"], allow_x00=cfg["allowX00"], codec="ascii" if cfg["ascii"] else "utf-8")
+
+
+def work_history(item: dict) -> dict:
+    """Replay one TLC-exported history on ONE loaded schema object in this process; every drawn document remembers its step."""
+    _setup()
+    import graphql
+    import schemathesis
+
+    case, h = item["case"], item["h"]
+    view = {"types": case["types"], "roots": case["roots"]}
+    res = {"h": h, "docs": [], "errors": [], "draws": 0}
+    gschema = graphql.build_schema(to_sdl(view))
+    schemathesis.graphql.scalar("Reg", _reg_strategy("str"))          # DefaultReg of the specification
+    try:
+        schema = _load(view, item["loader"])
+        for k, step in enumerate(case["hist"], 1):
+            if step["a"] == "configure":
+                schema.configure(generation=_gen_config(step["cfg"]))
+            elif step["a"] == "register":
+                schemathesis.graphql.scalar("Reg", _reg_strategy(step["kind"]))
+            else:
+                try:
+                    operation = schema[case["roots"][step["root"]]][step["field"]]
+                    strategy = operation.as_strategy(generation_config=_gen_config(step["cfg"])) if step["has"] else operation.as_strategy()
+                    cases, err = _draw(strategy, item["n"], item["seed"] + 101 * k)
+                except BaseException as exc:  # noqa: BLE001
+                    cases, err = [], "%s: %s" % (type(exc).__name__, str(exc)[:160])
+                seen = set()
+                for c in cases:
+                    res["draws"] += 1
+                    if not isinstance(c.body, str) or c.body in seen:
+                        continue
+                    seen.add(c.body)
+                    try:
+                        ast = graphql.parse(c.body, no_location=True)
+                        res["docs"].append({"h": h, "step": k, "body": c.body, "doc": project_doc(ast), "gql": _gql_rules(gschema, ast)})
+                    except Exception as exc:  # noqa: BLE001
+                        res["docs"].append({"h": h, "step": k, "body": c.body, "doc": {"defs": []}, "gql": ["<syntax>"], "syntax_error": str(exc)[:200]})
+                if err is not None:
+                    res["errors"].append({"h": h, "step": k, "error": err})
+    finally:
+        schemathesis.graphql.scalar("Reg", _reg_strategy("str"))
+    return res
+
+
+def _history_text(hist: list[dict], upto: int) -> str:
+    out = []
+    for st_ in hist[:upto]:
+        c = st_["cfg"]
+        cfg = "null=%s,x00=%s,ascii=%s" % (c["allowNull"], c["allowX00"], c["ascii"])
+        out.append("configure(%s)" % cfg if st_["a"] == "configure" else "register(Reg:%s)" % st_["kind"] if st_["a"] == "register"
+                   else "draw(%s.%s%s)" % (st_["root"], st_["field"], ", generation_config=(%s)" % cfg if st_["has"] else ""))
+    return " ; ".join(out)
+
+
+def history_signature(case: dict, step: int, rule: str) -> str:
+    """Input class: the rule + which kinds of change happened on this schema object before / at the judged draw."""
+    hist = case["hist"]
+    kinds = {s["a"] for s in hist[:step - 1] if s["a"] != "draw"}
+    if any(s["a"] == "draw" and s["has"] for s in hist[:step]):
+        kinds.add("override")
+    earlier = any(s["a"] == "draw" for s in hist[:step - 1])
+    return "C20:history:%s:%s:changes=%s" % (rule, "after-earlier-draw" if earlier else "first-draw", "+".join(sorted(kinds)) or "none")
+
+
+def evaluate_histories(ctx: Ctx, out: Outcome, cases: list[dict], results: list[dict], tag: str = "-hist") -> dict:
+    shapes, sidx = [], {}
+    for c in cases:
+        key = json.dumps(c["shape"], sort_keys=True)
+        if key not in sidx:
+            shapes.append(c["shape"])
+            sidx[key] = len(shapes)
+    docs = [d for r in results for d in r["docs"]]
+    obs = [{"k": "hdoc", "s": sidx[json.dumps(cases[d["h"]]["shape"], sort_keys=True)], "hist": cases[d["h"]]["hist"], "step": d["step"],
+            "doc": d["doc"]} for d in docs]
+    bad, judged, t_judge = judge(ctx, shapes or [{"args": [], "ret": "scalar", "mut": "none", "names": "std", "sub": False}], obs, tag)
+    discrepancies = 0
+    for i, d in enumerate(docs):
+        case = cases[d["h"]]
+        rules = bad.get(i, [])
+        definite = [r for r in rules if r not in UNKNOWN_RULES]
+        eff = case["eff"][d["step"] - 1]
+        replay = {"kind": "history", "case": case, "step": d["step"], "body": d["body"]}
+        if "syntax_error" in d:
+            out.violations.append(Violation("C20:history:syntax", "case.body is not a GraphQL document: %s" % d["syntax_error"], replay))
+            continue
+        for r in definite:
+            out.violations.append(Violation(
+                history_signature(case, d["step"], r),
+                "%s at step %d of [%s] on one schema object (config in force at that draw: allow_null=%s allow_x00=%s ascii=%s, Reg:%s): %r" % (
+                    r, d["step"], _history_text(case["hist"], d["step"]), eff["cfg"]["allowNull"], eff["cfg"]["allowX00"], eff["cfg"]["ascii"],
+                    eff["reg"], d["body"][:120]),
+                dict(replay, rule=r)))
+        spec_valid = not (set(definite) - TARGET_RULES - CONFIG_RULES - {"bad-argument-value"})   # Reg literals: graphql-core accepts any kind
+        if spec_valid != (not d["gql"]) and len(definite) == len(rules):
+            discrepancies += 1
+            out.violations.append(Violation("C20:spec-discrepancy:history", "TLA+ verdict %s but graphql-core validate says %s for %r" % (
+                definite or "valid", d["gql"] or "valid", d["body"][:140]), dict(replay, rule="spec-discrepancy")))
+    return {"docs": len(docs), "judged": judged if docs else 0, "t_judge": t_judge, "bad": len(bad), "discrepancies": discrepancies,
+            "draws": sum(r["draws"] for r in results), "errors": sum(len(r["errors"]) for r in results),
+            "draw_steps": sum(1 for c in cases for s_ in c["hist"] if s_["a"] == "draw"),
+            "changed_between_draws": sum(1 for c in cases if _changes_between_draws(c))}
+
+
+def _changes_between_draws(case: dict) -> bool:
+    """Non-trivial history: some draw's configuration / registration differs from that of an earlier draw of the same operation."""
+    seen = {}
+    for st_, eff in zip(case["hist"], case["eff"]):
+        if st_["a"] == "draw":
+            key = (st_["root"], st_["field"])
+            sig = json.dumps(eff, sort_keys=True)
+            if key in seen and seen[key] != sig:
+                return True
+            seen.setdefault(key, sig)
+    return False
+
+
+def enumerate_histories(ctx: Ctx):
+    cfg = "GraphQLHistory_quick.cfg" if ctx.quick else "GraphQLHistory_thorough.cfg"
+    cases: list[dict] = []
+    res = tlc.require_ok(tlc.run_tlc("GraphQLHistory", cfg, workers=1, timeout=1200, on_json=lambda tag, d: cases.append(d), want_prints=False),
+                         "GraphQLHistory enumeration")
+    cases.sort(key=lambda c: json.dumps([c["shape"], c["hist"]], sort_keys=True))
+    return cfg, res, cases
+
+
 def run(ctx: Ctx) -> Outcome:
     out = Outcome()
     rng = random.Random(ctx.seed)
@@ -593,6 +735,17 @@ def run(ctx: Ctx) -> Outcome:
     results = common.pmap(work, items, chunk=1)
     t_draw = time.time() - t1
     m = evaluate(ctx, out, views, results)
+    # history dimension: TLC-enumerated configure / register / draw histories, each replayed on ONE schema object
+    hcfg, hres, hcases = enumerate_histories(ctx)
+    for inv in hres.violated:
+        out.violations.append(Violation("C20:spec:" + inv, "design invariant %s violated in GraphQLHistory.tla" % inv,
+                                        {"kind": "spec", "invariant": inv, "trace": hres.counterexample[:60]}))
+    t2 = time.time()
+    hitems = [{"h": h, "case": c, "loader": "sdl" if h % 2 == 0 else "json", "n": 8 if ctx.quick else 10,
+               "seed": (ctx.seed * 7919 + h * 31) % (2 ** 31)} for h, c in enumerate(hcases)]
+    hresults = common.pmap(work_history, hitems)
+    t_hist = time.time() - t2
+    hm = evaluate_histories(ctx, out, hcases, hresults)
     errors = [e for r in results for e in r["errors"]]
     unexpected = [e for e in errors if e.get("generatable", True)]
     # the property speaks about the test cases that are produced, not about whether one can be produced: reported, never a verdict
@@ -603,15 +756,17 @@ def run(ctx: Ctx) -> Outcome:
     nontrivial = len({(d["s"], d["root"], d["field"], d["body"]) for d in docs if any(s["args"] or s["sels"] for df in d["doc"]["defs"] for s in df["sels"])})
     sample_docs = common.sample(rng, docs, 4)
     out.coverage = {
-        "states": res.distinct, "transitions": res.generated,
-        "traces_validated_against_impl": m["judged"],
+        "states": res.distinct + hres.distinct, "transitions": res.generated + hres.generated,
+        "traces_validated_against_impl": m["judged"] + hm["judged"],
         "samples": [{"shape": views[d["s"]]["shape"], "loader": d["loader"], "cfg": d["cfg"], "operation": [d["root"], d["field"]],
                      "access": d["access"], "body": d["body"][:300]} for d in sample_docs],
-        "evaluations": sum(r["draws"] for r in results) + m["ops"],
+        "evaluations": sum(r["draws"] for r in results) + m["ops"] + hm["draws"],
         "distinct_nontrivial": nontrivial,
         "rule": "every schema shape reachable in GraphQL.tla under %s (TLC-enumerated) x loaders %s x generation configs %s; per operation %d "
                 "Hypothesis draws (distinct bodies judged); every name-filter pair of Filters(shape); non-trivial = distinct document with "
-                "arguments or a sub-selection" % (cfg, sorted({i["loader"] for i in items}), cfgs, n),
+                "arguments or a sub-selection; plus every history of GraphQLHistory.tla under %s (configure / register scalar / draw, 3 steps, "
+                "ending in a draw) replayed on one schema object, each document judged against the configuration of its own step" % (
+                    cfg, sorted({i["loader"] for i in items}), cfgs, n, hcfg),
         "exhaustive": False,
         "exhaustive_detail": {"schema_shapes_and_filters_within_cfg": True, "draws": False},
         "constants": {"cfg": cfg, "draws_per_operation": n, "generation_configs(allow_null,allow_x00,ascii)": cfgs},
@@ -620,8 +775,12 @@ def run(ctx: Ctx) -> Outcome:
         "skipped_outside_fragment": m["unknown_docs"] + len(errors) - len(unexpected),
         "operations_without_strategy(expected: required unregistered scalar)": len(errors) - len(unexpected),
         "generatable_operations_without_case": len(unexpected),
-        "spec_vs_graphql_core_discrepancies": m["discrepancies"], "spec_documents_cross_checked": m["canon_checked"],
+        "spec_vs_graphql_core_discrepancies": m["discrepancies"] + hm["discrepancies"], "spec_documents_cross_checked": m["canon_checked"],
         "spec_mutants_rejected_by_spec_and_graphql_core": m["canon_mutants_rejected_by_both"],
+        "histories": {"cfg": hcfg, "machine_states": hres.distinct, "histories_replayed_on_one_schema_object": len(hcases),
+                      "draw_steps": hm["draw_steps"], "histories_with_a_change_between_two_draws_of_one_operation": hm["changed_between_draws"],
+                      "documents_judged_against_their_own_step": hm["docs"], "documents_rejected": hm["bad"], "draw_errors(no strategy)": hm["errors"],
+                      "replay_s": round(t_hist, 1), "tlc_judge_s": round(hm["t_judge"], 1), "tlc_enumeration_s": round(hres.wall_s, 1)},
         "tlc_enumeration_s": round(res.wall_s, 1), "draw_s": round(t_draw, 1), "tlc_judge_s": round(m["t_judge"], 1),
     }
     out.assumptions = [
@@ -645,6 +804,17 @@ def replay(ctx: Ctx, data: dict) -> Outcome:
         r = work(item)
         r["canon"] = []
         evaluate(ctx, out, [view], [r])
+        return out
+    if data["kind"] == "history":
+        for seed in range(3):
+            r = work_history({"h": 0, "case": data["case"], "loader": "sdl", "n": 40, "seed": seed})
+            o2 = Outcome()
+            evaluate_histories(ctx, o2, [data["case"]], [r], "-replay")
+            hit = [v for v in o2.violations if v.replay.get("step") == data["step"] and (data.get("rule") in (None, "spec-discrepancy")
+                                                                                      or (":%s:" % data["rule"]) in v.signature)]
+            if hit:
+                out.violations = hit[:3]
+                return out
         return out
     if data["kind"] == "canon":
         r = work({"s": 0, "view": dict(view, filters=[]), "loader": "sdl", "cfgs": [], "n": 0, "seed": 0})
@@ -684,9 +854,26 @@ def selftest(ctx: Ctx) -> bool:
     ops_good = {"k": "ops", "s": 1, "filt": {"incl": {"k": "eq", "root": "mutation", "field": "f", "ops": []}, "excl": none},
                 "offered": [{"root": "mutation", "field": "f"}], "selected": 1, "total": 4}
     ops_bad = dict(ops_good, offered=[{"root": "query", "field": "f"}, {"root": "mutation", "field": "f"}], selected=2)
-    bad, _, _ = judge(ctx, [shape], [good, wrong_root, other_field, null_arg, big, ops_good, ops_bad], tag="-selftest")
+    # a history on one schema object: draw, configure(strict), draw - the SAME document (null + non-ASCII string in a nullable argument)
+    # is acceptable at step 1 and must be rejected at step 3; a String literal for Reg is rejected once Reg is re-registered as Int
+    dflt = {"allowNull": True, "allowX00": True, "ascii": False}
+    strict = {"allowNull": False, "allowX00": False, "ascii": True}
+
+    def st(a, cfg=dflt, has=False, root="", field="", kind=""):
+        return {"a": a, "cfg": cfg, "has": has, "root": root, "field": field, "kind": kind}
+
+    hshape = {"args": [{"name": "a", "base": "Inner", "wrap": "[T]"}], "ret": "scalar", "mut": "none", "names": "std", "sub": False}
+    hist = [st("draw", root="query", field="f"), st("configure", cfg=strict), st("draw", root="query", field="f")]
+    hdoc = project_doc(graphql.parse('{ f(a: [{a: 1, b: "\u00e9"}, null]) }', no_location=True))
+    rshape = {"args": [{"name": "a", "base": "Reg", "wrap": "T"}], "ret": "scalar", "mut": "none", "names": "std", "sub": False}
+    rhist = [st("draw", root="query", field="f"), st("register", kind="int"), st("draw", dflt, True, "query", "f")]
+    rdoc = project_doc(graphql.parse('{ f(a: "r1") }', no_location=True))
+    hobs = [{"k": "hdoc", "s": 2, "hist": hist, "step": 1, "doc": hdoc}, {"k": "hdoc", "s": 2, "hist": hist, "step": 3, "doc": hdoc},
+            {"k": "hdoc", "s": 3, "hist": rhist, "step": 1, "doc": rdoc}, {"k": "hdoc", "s": 3, "hist": rhist, "step": 3, "doc": rdoc}]
+    bad, _, _ = judge(ctx, [shape, hshape, rshape], [good, wrong_root, other_field, null_arg, big, ops_good, ops_bad] + hobs, tag="-selftest")
     expect = {1: ["wrong-operation-type"], 2: ["not-exactly-the-field"], 3: ["bad-argument-value", "null-when-disabled"],
-              4: ["bad-argument-value"], 6: ["offered-set", "selected-count"]}
+              4: ["bad-argument-value"], 6: ["offered-set", "selected-count"],
+              8: ["non-ascii-with-ascii-codec", "null-when-disabled"], 10: ["bad-argument-value"]}
     if bad != expect:
         print("selftest: judge said", bad, "expected", expect)
     return bad == expect
